@@ -216,3 +216,71 @@ func VH_c13_sender() {
 		verifrt.Reach("sent-three")
 	}
 }
+
+func init() {
+	verifrt.Register("VH_c13_race", VH_c13_race)
+}
+
+// C13 (schedules): concurrent use of one Sender.
+func VH_c13_race() {
+	sc := verifrt.ShardChoice("case", 3)
+	verifrt.Scenario([]string{"two-identical-requests", "request-and-notify", "request-racing-with-the-response-to-its-twin"}[sc])
+	wr := &vhWriter{}
+	s := NewSender(wr).(*Sender)
+	s.msgNum = 100
+	src, dst := vhAddr("L", []uint{1}, 3), vhAddr("A", []uint{1}, 2)
+	counters := func() map[uint64]int {
+		m := map[uint64]int{}
+		for _, b := range wr.msgs {
+			d := vhDecode(b)
+			m[uint64(*d.Header.MsgCounter)]++
+		}
+		return m
+	}
+	var c1, c2 *model.MsgCounterType
+	var e1, e2 error
+	switch sc {
+	case 0:
+		verifrt.Go(func() { c1, e1 = s.Request(model.CmdClassifierTypeRead, src, dst, false, []model.CmdType{vhReadCmd(1)}) })
+		verifrt.Go(func() { c2, e2 = s.Request(model.CmdClassifierTypeRead, src, dst, false, []model.CmdType{vhReadCmd(1)}) })
+	case 1:
+		verifrt.Go(func() { c1, e1 = s.Request(model.CmdClassifierTypeRead, src, dst, false, []model.CmdType{vhReadCmd(1)}) })
+		verifrt.Go(func() { c2, e2 = s.Notify(src, dst, vhReadCmd(2)) })
+	case 2:
+		c0, _ := s.Request(model.CmdClassifierTypeRead, src, dst, false, []model.CmdType{vhReadCmd(1)})
+		verifrt.Go(func() { c1, e1 = s.Request(model.CmdClassifierTypeRead, src, dst, false, []model.CmdType{vhReadCmd(1)}) })
+		verifrt.Go(func() { s.ProcessResponseForMsgCounterReference(c0); c2 = c0 })
+	}
+	verifrt.PreemptOn()
+	verifrt.WaitIdle()
+	verifrt.PreemptOff()
+	verifrt.Reach("both-done")
+	verifrt.Assert("calls-succeed", e1 == nil && e2 == nil && c1 != nil && c2 != nil)
+	cs := counters()
+	uniq := true
+	for _, n := range cs {
+		if n != 1 {
+			uniq = false
+		}
+	}
+	verifrt.Assert("no-two-datagrams-carry-the-same-counter", uniq)
+	verifrt.Assert("returned-counter-belongs-to-a-written-datagram", cs[uint64(*c1)] == 1 && cs[uint64(*c2)] == 1)
+	switch sc {
+	case 0:
+		verifrt.Assert("identical-concurrent-requests-are-sent-once", len(wr.msgs) == 1 && *c1 == *c2)
+	case 1:
+		verifrt.Assert("different-calls-are-both-sent", len(wr.msgs) == 2 && *c1 != *c2)
+	case 2:
+		// withheld (earlier counter returned, response arrived afterwards) or sent anew after the response
+		verifrt.Assert("request-withheld-or-sent-anew", (len(wr.msgs) == 1 && *c1 == *c2) || (len(wr.msgs) == 2 && *c1 != *c2))
+		// afterwards an identical request is withheld exactly when the last one is still unanswered
+		before := len(wr.msgs)
+		c3, _ := s.Request(model.CmdClassifierTypeRead, src, dst, false, []model.CmdType{vhReadCmd(1)})
+		if *c1 == *c2 {
+			verifrt.Assert("answered-request-can-be-sent-again", len(wr.msgs) == before+1 && *c3 != *c1)
+		} else {
+			verifrt.Assert("unanswered-request-is-withheld", len(wr.msgs) == before && *c3 == *c1)
+		}
+	}
+	verifrt.Assert("no-thread-left-blocked", verifrt.BlockedThreads() == 0)
+}
